@@ -6,6 +6,7 @@ import (
 	"fmt"
 	"go/token"
 	"go/types"
+	"strings"
 
 	"golang.org/x/tools/go/ssa"
 )
@@ -611,6 +612,21 @@ func (x *Exec) binop(st *State, op token.Token, a, b Val, opndT, resT types.Type
 				bt = Term{fmt.Sprintf("(bv2nat %s)", bt.S), "Int"}
 			}
 			return x.intBinop(st, op, at, bt, u, resT, pos)
+		}
+	}
+	if _, isSlice := opndT.Underlying().(*types.Slice); isSlice {
+		// slices compare only against nil
+		t := at
+		if strings.Contains(at.S, "true)") && strings.HasPrefix(at.S, "(mk_Sl_") && !strings.HasPrefix(bt.S, "(mk_Sl_") {
+			t = bt
+		} else if strings.HasPrefix(bt.S, "(mk_Sl_") {
+			t = at
+		}
+		switch op {
+		case token.EQL:
+			return res(sliceNil(t))
+		case token.NEQ:
+			return res(Not(sliceNil(t)))
 		}
 	}
 	// pointers, interfaces, funcs, structs, channels: equality only
